@@ -115,8 +115,9 @@ Fixpoint all2 {A B} (f : A -> B -> bool) (a : list A) (b : list B) : bool :=
   | _, _ => false
   end.
 
+(* the bytes the endpoint wrote on the stream (whatever the number of Write calls they came in) *)
 Definition sent_ok (ms : list msg) (fs : list string) : bool :=
-  all2 (fun m f => eqb_bytes (enc_msg m) (unhex f)) ms fs.
+  eqb_bytes (List.concat (map enc_msg ms)) (List.concat (map unhex fs)).
 
 Definition case_ok (c : ocase) : bool :=
   let '(e, s) := replay init (c_ops c) in
